@@ -1,6 +1,7 @@
 import GqlProofs.PlanCache
 import GqlProofs.NormalizeLoc
 import GqlProofs.NormalizeWF
+import GqlProofs.NulFree
 import Props.C08Bytes
 /-! # C06 — Prepared plans and the plan cache are semantically transparent
 
@@ -884,6 +885,26 @@ theorem normalising_get_transparent {S : Type} [DecidableEq S] (fb : PlanCache.K
   rw [hb] at hE
   exact normalising_hit_transparent (f.schemaOf s) hcc hsch doc docN _ (f.opStr op) inputs synth w fuel hnorm hE hlex hu
 
+/-- **parsed_text_nul_free.** Text that the lexer + parser models accept contains no NUL byte (for ANY bytes: the
+bug-faithful lexer model, D-03a included — an early NAME end only makes the next scan re-read bytes). -/
+theorem parsed_text_nul_free (b : List UInt8) (p : GqlModel.Parser.Parsed) (h : GqlModel.parseBytes b = .ok p) :
+    ∀ x ∈ b, x ≠ 0 := GqlModel.parseBytes_nz b p h
+
+/-- **printed_nul_free.** The cache identifier of a well-formed document contains no NUL byte: its printed text parses
+back (C08 `parse_print`), and text the lexer model accepts contains no NUL byte (`parseBytes_nz`, GqlProofs/NulFree.lean:
+every byte is read by a scanner, and every scanner rejects the byte 0). -/
+theorem printed_nul_free (d : Document) (h : Printer.WFDocument d) : ∀ b ∈ printedKey d, b ≠ 0 := by
+  obtain ⟨a, ha, _⟩ := GqlModel.C08.parse_print d h
+  have hz := GqlModel.parseBytes_nz _ _ ha
+  intro b hb
+  simp only [printedKey, List.cons_append, List.nil_append, List.mem_cons] at hb
+  rcases hb with rfl | rfl | rfl | rfl | hb
+  · decide
+  · decide
+  · decide
+  · decide
+  · exact hz b hb
+
 /-- what an `.ok` answer of the front end is made of -/
 theorem Front.norm_ok {S : Type} (f : Front S) (s : S) (q op nk : PlanCache.Bytes) (sy : Vars)
     (h : f.norm s q op = .ok nk sy) :
@@ -908,19 +929,23 @@ theorem Front.norm_ok {S : Type} (f : Front S) (s : S) (q op nk : PlanCache.Byte
 `notes/fixes/D-06k.diff` (`keyShapeRepaired`: `operationName + "\x00" + normKey`; `normKey` = `"raw:" + query` for
 requests normalisation does not apply to, `printedKey` = `"doc:"` + printed normalised document otherwise), equal cache
 keys imply documents equal up to source locations: no hash, no collision assumption, operation names are ARBITRARY byte
-strings. Premises: the parser's documents are printer-well-formed (C03's output satisfies C08's `WFDocument`),
-`SchemaOK`, and — for the `"\x00"` separator — text that parses, and the printed text of a well-formed document,
-contain no NUL byte (`hq`, `hd`: the lexer rejects every control character but tab / LF / CR, in comments and strings
-too, and the printer escapes them; LexerSpec states it, no theorem of C03/C08 is quoted for it). For the key as coded
+strings. Premises: `f.parse` is the parser model on bytes (`hpb`: `parseBytes`, C03's lexer + parser models), its
+documents are printer-well-formed (`hp`: C03's output satisfies C08's `WFDocument`), `SchemaOK`. The `"\\x00"` separator
+is sound because neither text that parses nor printed text contains a NUL byte — PROVED: `parseBytes_nz`
+(GqlProofs/NulFree.lean, from the lexer model) and `printed_nul_free` (from it and C08's `parse_print`). For the key as coded
 (`keyShapeCoded` + FNV fingerprint) the same statement is FALSE: D-06k (hash collision) and D-06l (the fingerprint does
 not see definitions the selected operation does not reach). -/
 theorem repaired_key_faithful {S : Type} (f : Front S)
     (hk : ∀ d op, f.keyOf d op = printedKey d)
     (hp : ∀ q doc, f.parse q = some doc → Printer.WFDocument doc)
-    (hq : ∀ q doc, f.parse q = some doc → ∀ b ∈ q, b ≠ 0)
-    (hd : ∀ d, Printer.WFDocument d → ∀ b ∈ printedKey d, b ≠ 0)
+    (hpb : ∀ q doc, f.parse q = some doc → ∃ bad, GqlModel.parseBytes q = .ok ⟨doc, bad⟩)
     (hs : ∀ s, SchemaOK (f.schemaOf s)) :
     PlanCache.KeyFaithful PlanCache.keyShapeRepaired SameShape f.norm f.buildN := by
+  have hq : ∀ q doc, f.parse q = some doc → ∀ b ∈ q, b ≠ 0 := by
+    intro q doc h
+    obtain ⟨bad, hb⟩ := hpb q doc h
+    exact GqlModel.parseBytes_nz q _ hb
+  have hd : ∀ d, Printer.WFDocument d → ∀ b ∈ printedKey d, b ≠ 0 := printed_nul_free
   intro s q op q' op' nk sy nk' sy' hn hn' hkey
   simp only [PlanCache.normCacheKey, PlanCache.keyShapeRepaired] at hkey
   obtain ⟨doc, hpa, hcase⟩ := Front.norm_ok f s q op nk sy hn
@@ -988,8 +1013,7 @@ for the key construction of `notes/fixes/D-06k.diff` no hypothesis about hashes 
 theorem normalising_get_transparent_repaired {S : Type} [DecidableEq S] (f : Front S)
     (hk : ∀ d op, f.keyOf d op = printedKey d)
     (hp : ∀ q doc, f.parse q = some doc → Printer.WFDocument doc)
-    (hq : ∀ q doc, f.parse q = some doc → ∀ b ∈ q, b ≠ 0)
-    (hd : ∀ d, Printer.WFDocument d → ∀ b ∈ printedKey d, b ≠ 0)
+    (hpb : ∀ q doc, f.parse q = some doc → ∃ bad, GqlModel.parseBytes q = .ok ⟨doc, bad⟩)
     (errRes : S → PlanCache.Bytes → PlanCache.Bytes → Document) (failed : Document → Bool)
     (c : PlanCache.Cache S Document) (s : S) (q op : PlanCache.Bytes)
     (h : PlanCache.InvE PlanCache.keyShapeRepaired SameShape f.norm f.buildN c)
@@ -1004,7 +1028,7 @@ theorem normalising_get_transparent_repaired {S : Type} [DecidableEq S] (f : Fro
       Exec.execute (f.schemaOf s) (PlanCache.getNorm PlanCache.keyShapeRepaired f.norm errRes f.buildN failed c s q op).2.1.res
           (f.opStr op) (synth ++ inputs) w fuel =
         Exec.execute (f.schemaOf s) doc (f.opStr op) inputs w fuel) :=
-  normalising_get_transparent PlanCache.keyShapeRepaired f (repaired_key_faithful f hk hp hq hd hsch) errRes failed c s q op h
+  normalising_get_transparent PlanCache.keyShapeRepaired f (repaired_key_faithful f hk hp hpb hsch) errRes failed c s q op h
     doc docN synth inputs w fuel hparse hnorm hcc (hsch s) hlex hu
 
 /-! ## non-vacuity -/
